@@ -139,7 +139,30 @@ func (k Keeper) Open(ctx sdk.Context, msg *types.MsgOpen) (*types.MsgOpenRespons
 		}
 	}
 
+	// The health above was computed before the accounted pool was refreshed by the hook;
+	// the position must still be healthy in the state it is left in
+	if err = k.CheckMTPHealthAfterOpen(ctx, mtp, baseCurrency); err != nil {
+		return nil, err
+	}
+
 	return &types.MsgOpenResponse{
 		Id: mtp.Id,
 	}, nil
+}
+
+// CheckMTPHealthAfterOpen re-evaluates the health of a position in the final state of an open
+// (after the accounted pool has been refreshed) and rejects the open if it is not above the safety factor.
+func (k Keeper) CheckMTPHealthAfterOpen(ctx sdk.Context, mtp *types.MTP, baseCurrency string) error {
+	ammPool, err := k.GetAmmPool(ctx, mtp.AmmPoolId)
+	if err != nil {
+		return err
+	}
+	health, err := k.GetMTPHealth(ctx, *mtp, ammPool, baseCurrency)
+	if err != nil {
+		return err
+	}
+	if health.LTE(k.GetSafetyFactor(ctx)) {
+		return errorsmod.Wrapf(types.ErrMTPUnhealthy, "(MtpHealth: %s)", health.String())
+	}
+	return nil
 }
